@@ -1,7 +1,7 @@
 (** C11 — Poetic literals denote the number or string their words spell.
     Statements only; proofs in Proofs/PoeticLaws.v. *)
 From Coq Require Import List ZArith NArith Bool QArith Qpower.
-From RRSS Require Import Base.Outcome Base.Chars Base.F64 Front.Ast Front.Token Front.Lexer Front.Poetic Front.Parser Proofs.PoeticLaws.
+From RRSS Require Import Base.Outcome Base.Chars Base.F64 Front.Ast Front.Token Front.Lexer Front.Poetic Front.Parser Proofs.PoeticLaws Proofs.ParseSafe.
 Import ListNotations.
 
 (** In exact arithmetic the algorithm of PoeticNumberLiteral::compute_value (the same generic
@@ -51,6 +51,22 @@ Proof. exact poetic_rhs_otherwise_is_literal. Qed.
 
 (** Non-vacuity: `a lovestruck ladykiller. ice-cold dream's end` : digits 1 0 0 . 8 6 3 = 100.863;
     the f64 instance prints 100.863 *)
+(** A poetic string literal is the exact text of the source after the `says` token and one space, up
+    to the next line-break token (or the end of the source): over any token list of ordered slices of
+    the buffer ([TI], what the lexer produces: C12), with [says] the token just consumed. *)
+Theorem C11_poetic_string_exact :
+  forall buf all, TI buf all ->
+  forall says s0 s txt s1, SI all s0 -> SI all s ->
+  (exists pt, toks s0 = pt :: toks s /\ pt_tok pt = says) ->
+  parse_poetic_string_rhs buf says s = Ok (txt, s1) ->
+  exists a rest, buf = a ++ tspell says ++ [32%N] ++ txt ++ rest /\ tstart says = byte_len a /\
+    s1 = drop_until_newline s (length (toks s)) /\
+    match current s1 with
+    | Some e => tid e = TNewline /\ exists b', rest = tspell e ++ b'
+    | None => rest = []
+    end.
+Proof. exact poetic_string_exact. Qed.
+
 Example C11_example :
   let el := [PEWord (lit "a"); PEWord (lit "lovestruck"); PEWord (lit "ladykiller"); PEDot;
              PEWord (lit "ice"); PESuffix (lit "-cold"); PEWord (lit "dream"); PESuffix (lit "'s"); PEWord (lit "end")] in
@@ -59,3 +75,4 @@ Example C11_example :
 Proof. vm_compute. repeat split; reflexivity. Qed.
 
 Print Assumptions C11_poetic_value_exact.
+Print Assumptions C11_poetic_string_exact.
